@@ -311,8 +311,26 @@ func Dump(d *meta.Data, o DumpOpts) any {
 			if !o.MaskEventPre {
 				m["PreState"] = e.GetPreState()
 			}
+			m["AliveConnId"] = e.GetAliveConnId()
 			if p := e.GetPtInfo(); p != nil && p.Pti != nil {
-				m["Pt"] = M{"Db": p.Db, "Owner": p.Pti.Owner.NodeID, "Status": int(p.Pti.Status), "PtId": p.Pti.PtId, "Ver": p.Pti.Ver, "RGID": p.Pti.RGID}
+				pt := M{"Db": p.Db, "Owner": p.Pti.Owner.NodeID, "Status": int(p.Pti.Status), "PtId": p.Pti.PtId, "Ver": p.Pti.Ver, "RGID": p.Pti.RGID}
+				if b := p.DBBriefInfo; b != nil {
+					pt["DBBriefInfo"] = M{"Name": b.Name, "EnableTagArray": b.EnableTagArray, "Replicas": b.Replicas}
+				}
+				// the shards ts-meta attached to the event (what the store is told to load / move)
+				sh := M{}
+				for id, x := range p.Shards {
+					if x == nil {
+						sh[fmt.Sprint(id)] = "<nil>"
+						continue
+					}
+					i, du := x.Ident, x.DurationInfo
+					sh[fmt.Sprint(id)] = M{"ShardID": i.ShardID, "ShardGroupID": i.ShardGroupID, "Policy": i.Policy, "OwnerDb": i.OwnerDb, "OwnerPt": i.OwnerPt, "ShardType": i.ShardType,
+						"DownSampleLevel": i.DownSampleLevel, "DownSampleID": i.DownSampleID, "ReadOnly": i.ReadOnly, "EngineType": i.EngineType, "StartTime": set(i.StartTime), "EndTime": set(i.EndTime),
+						"Tier": du.Tier, "TierDuration": int64(du.TierDuration), "Duration": int64(du.Duration), "MergeDuration": int64(du.MergeDuration)}
+				}
+				pt["Shards"] = sh
+				m["Pt"] = pt
 			}
 			ev[k] = m
 		}
